@@ -661,7 +661,7 @@ class FileSystem(SimComponent):
 
         def __call__(self, request: RequestFormat, context: Dict) -> bool:
             """Returns True if folder exists."""
-            return self.file_system.get_folder(folder_name=request[0]) is not None
+            return len(request) > 0 and self.file_system.get_folder(folder_name=request[0]) is not None
 
         @property
         def fail_message(self) -> str:
@@ -681,6 +681,8 @@ class FileSystem(SimComponent):
         def __call__(self, request: RequestFormat, context: Dict) -> bool:
             """Returns True if folder exists and is not deleted."""
             # get folder
+            if len(request) < 1:
+                return False
             folder = self.file_system.get_folder(folder_name=request[0], include_deleted=True)
             return folder is not None and not folder.deleted
 
@@ -701,7 +703,7 @@ class FileSystem(SimComponent):
 
         def __call__(self, request: RequestFormat, context: Dict) -> bool:
             """Returns True if file exists."""
-            return self.file_system.get_file(folder_name=request[0], file_name=request[1]) is not None
+            return len(request) > 1 and self.file_system.get_file(folder_name=request[0], file_name=request[1]) is not None
 
         @property
         def fail_message(self) -> str:
